@@ -149,7 +149,7 @@ func c15SQL(p ref.Pat, d c15Def, skip string, allRows bool) string {
 			defs = append(defs, name+" AS "+d.SQL[name])
 		}
 	}
-	rows := "MEASURES MATCH_NUMBER() AS mn, FIRST(id) AS f, LAST(id) AS l, LAST(k) AS pk, LAST(id) * 10 - LAST(v) AS dl, FIRST(id) * 10 + FIRST(v) AS df ONE ROW PER MATCH"
+	rows := "MEASURES MATCH_NUMBER() AS mn, FIRST(id) AS f, LAST(id) AS l, LAST(k) AS pk, LAST(id) * 10 - LAST(v) AS dl, FIRST(id) * 10 + FIRST(v) AS df, MAX(n) AS mxn, MIN(n) AS mnn, SUM(n) AS sn, COUNT(*) AS cn ONE ROW PER MATCH"
 	if allRows {
 		rows = "MEASURES MATCH_NUMBER() AS mn, CLASSIFIER() AS cl ALL ROWS PER MATCH"
 	}
@@ -511,6 +511,26 @@ func (c15) Run(u fw.Unit) fw.Result {
 						wl, wf := float64(ev[m.End-1].ID)*10-ev[m.End-1].V, float64(ev[m.Start].ID)*10+ev[m.Start].V
 						if !ok1 || !ok2 || dl != wl || df != wf {
 							a.fail("C15|measures|same-function-two-columns", fmt.Sprintf("%s over v=%v: match %d reports LAST(id)*10-LAST(v)=%v, FIRST(id)*10+FIRST(v)=%v; reference %v, %v", sql, vals1(ev), mi, row["dl"], row["df"], wl, wf), cs, []float64{wl, wf}, []any{row["dl"], row["df"]})
+							return
+						}
+						// aggregates over the whole match, on the all-negative column n = v - 4
+						mx, mn, sum := ev[m.Start].V-4, ev[m.Start].V-4, 0.0
+						for _, e := range ev[m.Start:m.End] {
+							n := e.V - 4
+							if n > mx {
+								mx = n
+							}
+							if n < mn {
+								mn = n
+							}
+							sum += n
+						}
+						gmx, o1 := num(row["mxn"])
+						gmn, o2 := num(row["mnn"])
+						gs, o3 := num(row["sn"])
+						gc, o4 := num(row["cn"])
+						if !o1 || !o2 || !o3 || !o4 || gmx != mx || gmn != mn || gs != sum || int(gc) != m.End-m.Start {
+							a.fail("C15|measures|aggregates-over-the-match", fmt.Sprintf("%s over v=%v: match %d (rows %d..%d) reports MAX(n)=%v MIN(n)=%v SUM(n)=%v COUNT(*)=%v; reference %v %v %v %d", sql, vals1(ev), mi, m.Start+1, m.End, row["mxn"], row["mnn"], row["sn"], row["cn"], mx, mn, sum, m.End-m.Start), cs, []float64{mx, mn, sum}, []any{row["mxn"], row["mnn"], row["sn"], row["cn"]})
 							return
 						}
 					}
